@@ -47,6 +47,11 @@ TwoClosersMixes == {[t \in Threads |-> IF t = "t1" THEN a ELSE IF t = "t2" THEN 
                        b \in {Op("close", "s1", NONE), Op("pclose", "prov", NONE), Op("close", "s2", NONE)},
                        c \in {Op("get", "s1", "A"), Op("get", "s2", "A"), Op("get", "s1", "T"), Op("create", "s1", NONE)}}
 
+\* a parent WITHOUT children (InitScopes = {s1}) closed while a child is being created on it
+ChildlessMixes == {[t \in Threads |-> IF t = "t1" THEN a ELSE b] :
+                      a \in {Op("close", "s1", NONE), Op("pclose", "prov", NONE), Op("cancel", "s1", NONE)},
+                      b \in {Op("create", "s1", NONE), Op("get", "s1", "A")}}
+
 PreNone == {}
 PreAB == {<<"s1", "B">>, <<"s1", "A">>, <<"s2", "B">>, <<"s2", "A">>}
 PreS1 == {<<"s1", "B">>, <<"s1", "A">>}
